@@ -76,6 +76,10 @@ theorem str_inj (w v w' v' : Nat) (h : str w v = str w' v') : w = w' ∧ v % 2 ^
   exact Option.some.inj this
 
 
+theorem parse_wav (w v : Nat) : parseWav w (wavStr w v) = some (v % 2 ^ w) := by
+  unfold parseWav wavStr
+  simp [length_binDigits, parseBinAux_binDigits]
+
 /-! ### symbols -/
 
 def digVal : List Nat → Nat
